@@ -15,6 +15,7 @@ import (
 	"os/exec"
 	"path/filepath"
 	"regexp"
+	"sort"
 	"strings"
 	"sync"
 
@@ -178,6 +179,81 @@ func c11FreePass(c *vlib.Ctx, rounds int) {
 	}
 	c.Set("free_running_complement", map[string]interface{}{"scenarios": len(names), "rounds": total, "verdict_failures_seen_not_reported": verdicts,
 		"reports": "process death only (fatal error / unrecovered panic); sampling, complements the controlled exploration for accesses between scheduling points"})
+}
+
+// c11RacePass runs the same free-running bodies in a -race build of the plain harness (thorough tier). The cooperative
+// scheduler's hand-offs are happens-before edges, so the race detector can only see unsynchronised accesses in a run
+// without the scheduler. Reports are supplementary evidence (distinct racing sites), never a VIOLATION: the property
+// speaks about outcomes, which the controlled exploration decides.
+func c11RacePass(c *vlib.Ctx, rounds int) {
+	bin := filepath.Join(vlib.VerifDir, ".build", "vcheck-race")
+	if _, err := os.Stat(bin); err != nil {
+		c.Set("race_detector_pass", "skipped: no -race build")
+		return
+	}
+	var names []string
+	for _, s := range append(c11Scenarios(), c11FreeMixes()...) {
+		if strings.HasPrefix(s.name, "S4") {
+			continue
+		}
+		if only := os.Getenv("VERIF_C11_RACEONLY"); only != "" && only != "1" && !strings.HasPrefix(s.name, only) {
+			continue
+		}
+		names = append(names, s.name)
+	}
+	dir, err := mkTemp("c11race")
+	if err != nil {
+		return
+	}
+	defer rmAll(dir)
+	reports := make([]string, len(names))
+	vlib.Par(len(names), 4, func(i int) {
+		job, _ := json.Marshal(map[string]interface{}{"Scenario": names[i], "Rounds": rounds})
+		cmd := exec.Command(bin, "worker", "c11free")
+		logp := filepath.Join(dir, fmt.Sprintf("race-%d", i))
+		cmd.Env = append(os.Environ(), "GOMAXPROCS=16", "GORACE=halt_on_error=0 history_size=2 log_path="+logp)
+		cmd.Stdin = strings.NewReader(string(job) + "\n")
+		cmd.Run()
+		files, _ := filepath.Glob(logp + ".*")
+		var sb strings.Builder
+		for _, f := range files {
+			if b, err := os.ReadFile(f); err == nil {
+				sb.Write(b)
+			}
+		}
+		reports[i] = sb.String()
+	})
+	total := 0
+	sites := map[string]int{}
+	dvidFrame := regexp.MustCompile(`(?m)^  (github\.com/janelia-flyem/dvid/[^\s(]+)\(`)
+	for _, rep := range reports {
+		for _, r := range strings.Split(rep, "WARNING: DATA RACE")[1:] {
+			total++
+			// the first DVID frame of each of the two accesses names the racing site
+			fr := dvidFrame.FindAllStringSubmatch(r, -1)
+			site := "outside dvid"
+			if len(fr) > 0 {
+				site = fr[0][1]
+				for _, f := range fr[1:] {
+					if f[1] != site {
+						site += " <-> " + f[1]
+						break
+					}
+				}
+			}
+			sites[site]++
+		}
+	}
+	var list []string
+	for s, n := range sites {
+		list = append(list, fmt.Sprintf("%s (%d reports)", s, n))
+	}
+	sort.Strings(list)
+	if len(list) > 40 {
+		list = list[:40]
+	}
+	c.Set("race_detector_pass", map[string]interface{}{"scenarios": len(names), "rounds_each": rounds, "data_race_reports": total, "distinct_racing_sites": list,
+		"note": "free-running -race run of the scenario bodies (no scheduler); supplementary evidence for accesses between scheduling points, not a verdict about the property"})
 }
 
 func tailAfter(s, marker string) string {
